@@ -130,6 +130,9 @@ def make_jobs(ctx, probs, hists):
     for pool in ((3, 7) if ctx.thorough else (3,)):
         jobs['pool%d' % pool] = dict(pool=pool, tier=tier, probs=usable if ctx.thorough else usable[:6], forms=shipped,
                                      digest_only=True)
+    d2s = [p for p in probs if p['d'] == 2 and (p['nc0'], p['nc1']) == (0, 0)]
+    jobs['c-fgrad'] = dict(pool=16, tier=tier, probs=d2s if ctx.thorough else d2s[:2], forms=['c-fgrad'], hists=hists,
+                           updates_only=True)
     if ctx.thorough:
         d1 = [p for p in probs if p['d'] == 1]
         d2 = [p for p in probs if p['d'] == 2]
